@@ -123,7 +123,7 @@ def check_case(case):
                             "halted_steps": halted_steps, "accepted_during_halt": accepted_during_halt, "seed": case["seed"]})
 
 
-PARTS = {"sim": {"check": check_case, "strategy": cases, "budget": {"quick": 1500, "thorough": 40000}}}
+PARTS = {"sim": {"check": check_case, "strategy": cases, "budget": {"quick": 3000, "thorough": 40000}}}
 
 
 def vacuity(merged, tier):
